@@ -23,6 +23,17 @@
 using namespace gdstk;
 
 typedef long double ld;
+// Reference (independent of src/utils.cpp): the parametric angle t of the ellipse point x = rx cos t, y = ry sin t
+// that lies in direction `angle` from the centre, continuous in `angle` and equal to it at every multiple of pi/2:
+// t = angle - w + atan2(rx sin w, ry cos w) with w = angle wrapped to [-pi, pi).
+static double ref_ell_angle(double angle, double rx, double ry) {
+    if (angle == 0 || angle == M_PI || rx == ry) return angle;
+    double w = fmod(angle + M_PI, 2 * M_PI);
+    if (w < 0) w += 2 * M_PI;
+    w -= M_PI;
+    return (angle - w) + atan2(rx * sin(angle), ry * cos(angle));
+}
+
 static const int GRID_BITS = 40;
 static long g_inexact = 0;
 static size_t g_budget = 96;  // exact distance samples per arc (quick); thorough: 384
@@ -500,8 +511,8 @@ static void run_curve(Out& out, const CurveDesc& d) {
                 c.turn(call.num[0], call.num[1]);
             }
             A.rx = rx; A.ry = ry; A.cr = cos(rot); A.sr = sin(rot);
-            A.a0 = elliptical_angle_transform(a_i - rot, rx, ry);
-            A.a1 = elliptical_angle_transform(a_f - rot, rx, ry);
+            A.a0 = ref_ell_angle(a_i - rot, rx, ry);
+            A.a1 = ref_ell_angle(a_f - rot, rx, ry);
             double x = rx * cos(A.a0), y = ry * sin(A.a0);
             Vec2 point0 = {x * A.cr - y * A.sr, x * A.sr + y * A.cr};
             Vec2 delta = pre - point0;
@@ -870,8 +881,8 @@ static void run_shape(Out& out, const std::string& kind, const std::string& payl
             } else if (full) {  // i * 2pi / (num_points - 1), both ends present
                 A.a0 = 0; A.a1 = 2 * M_PI; A.nseg = lv.size() - 1;
             } else {
-                A.a0 = elliptical_angle_transform(ai, lrx, lry);
-                A.a1 = elliptical_angle_transform(af, lrx, lry);
+                A.a0 = ref_ell_angle(ai, lrx, lry);
+                A.a1 = ref_ell_angle(af, lrx, lry);
                 A.nseg = lv.size() - 1;
             }
             bool bnd;
